@@ -51,6 +51,8 @@ ACCENT = {"A": "Á", "E": "É", "O": "Ö", "U": "Ü", "L": "Ł", "S": "Š", "Z":
 def accent(rng, w):
     """Party names are not ASCII-only in real opinions (Álvarez, Ünal, Peña)."""
     r = rng.random()
+    if r > 0.92:
+        return rng.choice(["O'", "D'", "Mc"]) + w          # O'Brien, D'Amato
     if r < 0.12 and w[0] in ACCENT:
         return ACCENT[w[0]] + w[1:]
     if r < 0.2 and "n" in w[1:]:
@@ -64,14 +66,22 @@ def make_cases(rng, k, collide=None):
     for i in range(k):
         P = accent(rng, gen.word(rng, used, 3)); used.append(P)
         D = accent(rng, gen.word(rng, used, 3)); used.append(D)
-        if cases and (collide if collide is not None else rng.random() < 0.4):
+        forced_page = None
+        SERIES = {"F.2d": "F.3d", "F.3d": "F.2d", "A.2d": "A.3d", "N.E.2d": "N.E.3d", "P.2d": "P.3d", "S.W.2d": "S.W.3d",
+                  "Cal. 3d": "Cal. 4th", "F. Supp. 2d": "F. Supp. 3d"}
+        if cases and collide is None and rng.random() < 0.15 and cases[-1]["rep"] in SERIES:
+            # another series of the same reporter family with the same volume (and sometimes page):
+            # distinct documents that only differ in the edition
+            rep, vol = SERIES[cases[-1]["rep"]], cases[-1]["vol"]
+            forced_page = cases[-1]["page"] if rng.random() < 0.5 else None
+        elif cases and (collide if collide is not None else rng.random() < 0.4):
             rep, vol = cases[-1]["rep"], cases[-1]["vol"]
         else:
             while True:
                 rep, vol = rng.choice(REPS), rng.randint(1, 500)
                 if not any(c["rep"].replace(" ", "") == rep.replace(" ", "") and c["vol"] == vol for c in cases):
                     break
-        page = rng.randint(1, 900)
+        page = forced_page or rng.randint(1, 900)
         # distinct cases must be distinct documents: 'U. S.' is a spelling of 'U.S.', so compare the
         # reporter without blanks (two cases with equal normalised reporter, volume and page are one case)
         nrep = lambda r: r.replace(" ", "")  # noqa
